@@ -692,7 +692,11 @@ def oracle_for(prop, c, obs):
             kind = obs[0][1]
             if not (isinstance(kind, tuple) and kind[0] == "validation"):
                 # an undeclared keyword on a non-dynamic schema is not a value for a declared field
-                if not (kind == "attribute" and any(k not in dict(c["fields"]) for k in c["kw"])):
+                if kind == "attribute" and any(k not in dict(c["fields"]) for k in c["kw"]):
+                    pass
+                elif kind == "attribute" and any(walk_sub(dict(c["fields"]).get(k), v, _undeclared_walk) for k, v in c["kw"].items()):
+                    bad.append("F33: undeclared key inside a map (constructor keyword) raises AttributeError")
+                else:
                     bad.append("constructor keyword rejected with %r instead of a ValidationError" % (kind,))
             else:
                 if not any(kind[1] == k or kind[1].startswith(k + ".") or kind[1].startswith(k + "[") for k in c["kw"]):
@@ -775,6 +779,8 @@ def oracle_for(prop, c, obs):
             if not (isinstance(kind, tuple) and kind[0] == "validation"):
                 if o[0] == "set" and not target_declared:
                     pass      # an undeclared key is not "a value for a declared field"
+                elif o[0] == "load" and kind == "attribute" and any(k not in declared for k in top_keys):
+                    pass      # load_tree of a top-level undeclared key: likewise not a declared field (pinned by the suite)
                 elif kind == "attribute" and has_undeclared(c, tsteps, o):
                     st["_class"] = "F33"
                     bad.append("F33: undeclared key inside a map raises AttributeError")
@@ -782,8 +788,12 @@ def oracle_for(prop, c, obs):
                     bad.append("%s of %r rejected with %r instead of a ValidationError" % (o[0], o[1:3], kind))
             else:
                 p = kind[1]
-                if not any(p == pjoin(tpath, k) or p.startswith(pjoin(tpath, k) + ".") or p.startswith(pjoin(tpath, k) + "[")
-                           for k in top_keys) and not (o[0] == "load" and p == tpath):
+                if o[0] == "load":
+                    # the load validates the whole (sub)configuration afterwards: any field of it may be named
+                    if tpath and not (p == tpath or p.startswith(tpath + ".") or p.startswith(tpath + "[")):
+                        bad.append("error path %r does not lie inside the loaded configuration %r" % (p, tpath))
+                elif not any(p == pjoin(tpath, k) or p.startswith(pjoin(tpath, k) + ".") or p.startswith(pjoin(tpath, k) + "[")
+                             for k in top_keys):
                     bad.append("error path %r does not lie below the assigned field(s) %r of %r" % (p, top_keys, tpath))
                 if o[0] == "set" and target_declared and declared[o[1]]["t"] == "leaf" and p != pjoin(tpath, o[1]):
                     bad.append("error path %r, expected %r" % (p, pjoin(tpath, o[1])))
@@ -806,23 +816,26 @@ def oracle_for(prop, c, obs):
     return bad
 
 
+def _undeclared_walk(fields, dyn, tree):
+    if not isinstance(tree, dict):
+        return False
+    decl = dict(fields)
+    for k, v in tree.items():
+        nd = decl.get(k)
+        if nd is None:
+            if not dyn:
+                return True
+            continue
+        if nd["t"] == "sub" and _undeclared_walk(nd["fields"], nd["dyn"], v):
+            return True
+        if nd["t"] == "cfglist" and isinstance(v, (list, tuple)) and any(_undeclared_walk(nd["fields"], False, i) for i in v):
+            return True
+    return False
+
+
 def has_undeclared(c, tsteps, o):
     """does the assigned/loaded value hold, at a position where a non-dynamic schema is declared, an undeclared key"""
-    def walk(fields, dyn, tree):
-        if not isinstance(tree, dict):
-            return False
-        decl = dict(fields)
-        for k, v in tree.items():
-            nd = decl.get(k)
-            if nd is None:
-                if not dyn:
-                    return True
-                continue
-            if nd["t"] == "sub" and walk(nd["fields"], nd["dyn"], v):
-                return True
-            if nd["t"] == "cfglist" and isinstance(v, (list, tuple)) and any(walk(nd["fields"], False, i) for i in v):
-                return True
-        return False
+    walk = _undeclared_walk
     fields = node_at(c["fields"], tsteps)
     if o[0] == "load":
         dyn = c["dyn"] if not tsteps else False
